@@ -1,11 +1,12 @@
 SPECIFICATION Spec
 CONSTANTS
-  MaxB = 5
-  MaxN = 4
-  ValTab <- ValsSmall
+  MaxB = 6
+  MaxN = 5
   Refs = {0, 1, 2, 3, 4}
   SymKinds = {}
+  KeepMode = "all"
+  ValTab <- ValsSmall
   Canon = FALSE
-  Kinds = {"R","G","LVr","LIr","Vr","VLr","Ir","ILr","S","O"}
+  Kinds = {"R","G","Vr","VLr","Ir","ILr","S","O"}
 INVARIANT Check
 CHECK_DEADLOCK FALSE
